@@ -149,9 +149,14 @@ Proof. apply same_map_assoc. exact (proj2 gen_interval_keys). Qed.
 Lemma gen_interval_seps : sep_at interval_seps 0 = Some nlc /\ sep_at interval_seps 1 = Some "="%char.
 Proof. split; reflexivity. Qed.
 
+(* decodeChangesetState: the file is cut into lines at newlines; every other Split / SplitN / Cut
+   (and the Join, when the value is re-joined) is at ":"; the time is on line 1, the sequence on
+   line 2.  (bytes.Cut at the first ":" = Split at ":" and Join of the tail: both give everything
+   after the first colon, which is what decode_changeset models.) *)
 Lemma gen_changeset_shape :
   sep_at changeset_seps 0 = Some nlc /\ sep_at changeset_seps 1 = Some ":"%char /\
-  sep_at changeset_seps 2 = Some ":"%char /\ sep_at changeset_join_seps 0 = Some ":"%char /\
+  forallb (String.eqb ":") (tl changeset_seps) = true /\
+  forallb (String.eqb ":") changeset_join_seps = true /\
   changeset_line_indices = [1; 2].
 Proof. repeat split; reflexivity. Qed.
 
